@@ -446,7 +446,23 @@ def sp_psum_monotone(interp, st, args, kwargs, node):
     return z3.Implies(nonneg, mono)
 
 
+def sp_maze_equal(interp, st, args, kwargs, node):
+    """the specification of maze equality (C09): same kind and identical connection structure, start, end and solution
+    (whichever of these the kind has); generation metadata ignored"""
+    a, b = args
+    if not (isinstance(a, Rec) and isinstance(b, Rec)):
+        raise Outside("maze_equal of non-mazes", node)
+    if a.cls != b.cls:
+        return False
+    out = []
+    for name in ("connection_list", "start_pos", "end_pos", "solution"):
+        if name in a.fields:
+            out.append(M.np_array_equal(interp, st, [a.fields[name], b.fields[name]], {}, node))
+    return b_and(*out)
+
+
 SPEC_FUNCTIONS = {
+    "maze_equal": sp_maze_equal,
     "psum_monotone": sp_psum_monotone,
     "psum": sp_psum,
     "maze_of": sp_maze_of,
